@@ -190,6 +190,9 @@ func init() {
 							for _, pos := range []struct{ name, pre, post string }{
 								{"right-operand-of-=", "1 = ", ""}, {"right-operand-of-&", "'x' & ", ""}, {"right-operand-of-and", "true and ", ".exists()"}, {"left-operand", "", " = 1"},
 								{"indexer", "Patient.name[(", ").count()]"}, {"argument", "iif(true, ", ", 1)"}, {"criterion", "Patient.where((", ").exists())"}, {"parenthesised", "(", ")"},
+								// acceptance of a call does not depend on how many calls the expression already holds
+								{"after-20-sibling-calls", strings.Repeat("'a'.substring(0).length() + ", 20), ""}, {"after-a-chain-of-20-calls", "'abcdefghijklmnopqrstuvwxyz'" + strings.Repeat(".substring(0)", 20) + ".length() + ", ""},
+								{"inside-20-nested-calls", strings.Repeat("iif(true, ", 20), strings.Repeat(", 0)", 20)},
 							} {
 								inner := src
 								if pos.name == "criterion" || pos.name == "argument" {
@@ -405,6 +408,23 @@ func init() {
 						}
 					}
 					tbl := c.table()
+					// every function the library declares as experimental is reachable with the experimental functions switched on:
+					// under its name, with its bounds and its implementation - unless an IMPLEMENTED default function has the name
+					// (a not-implemented placeholder of the default table does not count as one)
+					if raw := ftab.ExperimentalRaw(); raw != nil && c.name == "experimental" {
+						for name, e := range raw {
+							got, in := tbl[name]
+							r.State("experimental-reachable")
+							r.Nontrivial("experimental-raw", name, fmt.Sprint(in))
+							if in && got == e {
+								continue
+							}
+							if base, inBase := ftab.Table(false)[name]; inBase && base.Impl != placeholder {
+								continue
+							}
+							r.Fail("experimental-function-not-reachable|"+name, core.W{"name": name, "declared": fmt.Sprintf("%s/%d..%d", e.Impl, e.Min, e.Max), "in_the_table_with_experimental_functions": fmt.Sprintf("%v %s/%d..%d", in, got.Impl, got.Min, got.Max)})
+						}
+					}
 					var keys []string
 					for k := range tbl {
 						keys = append(keys, k)
